@@ -52,7 +52,9 @@ def oracle(func: str, a: Dict[str, Any]) -> Tuple[Any, Dict[str, Any]]:
         from ..extlib import broadcast
 
         osh = broadcast(a["input"].shape, a["other"].shape)
-        return sp.Integer(2) ** -half, {
+        single = numel(a["input"]) == 1 or numel(a["other"]) == 1
+        # a single-element operand shifts the mean, not the spread: output left unscaled (as stated)
+        return (sp.Integer(1) if single else sp.Integer(2) ** -half), {
             "input": (osh.numel() / numel(a["input"])) ** -half,
             "other": (osh.numel() / numel(a["other"])) ** -half,
         }
